@@ -36,7 +36,7 @@ def preload():
     import cirq  # noqa
     from tangelo.algorithms.variational import VQESolver  # noqa
     cirqstub.self_check()
-    for k in ("H2", "H4f"):
+    for k in ("H2", "H4f", "H2+"):
         mol(k)
 
 
@@ -80,10 +80,28 @@ def h_energy(env, opts, patt, n, canary=False, hkind=None):
         if hkind == "circuit":
             opts["ansatz"] = Circuit([Gate("RY", 0, parameter=0.5, is_variational=True), Gate("CNOT", 1, 0),
                                       Gate("RX", 1, parameter=0.25, is_variational=True), Gate("RZ", 0, parameter=1.0, is_variational=True)])
+    if opts.pop("projective", False):
+        opts["projective_circuit"] = Circuit([Gate("CNOT", 1, 0), Gate("RZ", 1, parameter=np.pi / 4), Gate("H", 0)])
+    if opts.pop("vsqs_rational", False):
+        # VSQS multiplies Hamiltonian coefficients into the rotation angles: rational coefficients keep them exact
+        from harness.c07 import _qop, H_FINAL2, H_INIT2
+        opts["qubit_hamiltonian"] = _qop(H_FINAL2)
+        opts["ansatz_options"] = dict(qubit_hamiltonian=_qop(H_FINAL2), h_init=_qop(H_INIT2), reference_state=Circuit([Gate("X", 1)], n_qubits=2),
+                                      intervals=opts["intervals"], time=np.pi / 4 * opts.pop("intervals"))   # dt = pi/4: the fixed angles stay on the pi/64 grid
+    twice = opts.pop("twice", False)
+    nsym = opts.pop("nsym", 2)
     try:
         s = make_solver(env, opts)
+        if patt is None:
+            k = s.ansatz.n_var_params
+            patt = ("s" * nsym + "p" * k)[:k]
+        if n is None:
+            n = s.ansatz.circuit.width
         th = vec(env, "th", patt)
         with sym_alloc(env):
+            if twice:
+                # an earlier evaluation at another point must leave no trace (ansatz circuit, projective circuit, reference)
+                s.energy_estimation([0.1 * (i + 1) for i in range(len(patt))])
             e = s.energy_estimation(th)
             st = full_circuit_state(s, n)
     finally:
@@ -144,7 +162,7 @@ def h_symmetry(env, opts, patt, n, which, canary=False):
     try:
         s = make_solver(env, opts)
         if patt is None:
-            patt = "s" + "p" * (s.ansatz.n_var_params - 1)
+            patt = ("s" + "p" * s.ansatz.n_var_params)[:s.ansatz.n_var_params]
         th = vec(env, "th", patt)
         with sym_alloc(env):
             H_before = s.qubit_hamiltonian
@@ -329,6 +347,30 @@ def shapes(tier, seed):
             out.append(Shape(f"symmetry/{which}/H4f/{mp}/utd={int(utd)}", h_symmetry,
                              dict(opts=dict(molecule_key="H4f", qubit_mapping=mp, up_then_down=utd, ansatz=BuiltInAnsatze.UCCSD), patt=None, n=n, which=which),
                              modules=MODS, max_paths=64))
+    B = BuiltInAnsatze
+    variety = [("ucc1", dict(molecule_key="H2", qubit_mapping="jw", up_then_down=True, ansatz=B.UCC1)),
+               ("ucc3", dict(molecule_key="H2", qubit_mapping="jw", up_then_down=True, ansatz=B.UCC3)),
+               ("upccgsd", dict(molecule_key="H2", qubit_mapping="bk", up_then_down=False, ansatz=B.UpCCGSD)),
+               ("uccgd", dict(molecule_key="H2", qubit_mapping="jw", up_then_down=False, ansatz=B.UCCGD)),
+               ("qmf", dict(molecule_key="H2", qubit_mapping="jw", up_then_down=True, ansatz=B.QMF)),
+               ("qcc", dict(molecule_key="H2", qubit_mapping="jw", up_then_down=True, ansatz=B.QCC)),
+               ("ilc", dict(molecule_key="H2", qubit_mapping="jw", up_then_down=True, ansatz=B.ILC)),
+               ("vsqs", dict(ansatz=B.VSQS, vsqs_rational=True, intervals=2)),
+               ("puccd", dict(molecule_key="H2", qubit_mapping="hcb", ansatz=B.pUCCD)),
+               ("hea-mol", dict(molecule_key="H2", qubit_mapping="scbk", up_then_down=True, ansatz=B.HEA, ansatz_options={"n_layers": 1})),
+               ("uccsd-proj", dict(molecule_key="H2", qubit_mapping="jw", up_then_down=False, ansatz=B.UCCSD, projective=True)),
+               ("uccsd-proj-twice", dict(molecule_key="H2", qubit_mapping="bk", up_then_down=True, ansatz=B.UCCSD, projective=True, twice=True)),
+               ("uccsd-refstate-proj", dict(molecule_key="H2", qubit_mapping="jw", up_then_down=False, ansatz=B.UCCSD, projective=True, ref_state=[0, 1, 1, 0])),
+               ("uccsd-twice", dict(molecule_key="H2", qubit_mapping="jkmn", up_then_down=False, ansatz=B.UCCSD, twice=True)),
+               ("uccsd-openshell", dict(molecule_key="H2+", qubit_mapping="jw", up_then_down=False, ansatz=B.UCCSD)),
+               ("uccsd-openshell-scbk", dict(molecule_key="H2+", qubit_mapping="scbk", up_then_down=True, ansatz=B.UCCSD))]
+    if tier == "thorough":
+        variety += [("upccgsd-k2", dict(molecule_key="H2", qubit_mapping="jw", up_then_down=True, ansatz=B.UpCCGSD, ansatz_options={"k": 2})),
+                    ("uccsd-H4f", dict(molecule_key="H4f", qubit_mapping="scbk", up_then_down=True, ansatz=B.UCCSD)),
+                    ("qcc-bk", dict(molecule_key="H2", qubit_mapping="bk", up_then_down=False, ansatz=B.QCC)),
+                    ("vsqs-4", dict(ansatz=B.VSQS, vsqs_rational=True, intervals=4, nsym=6))]
+    for nm, o in variety:
+        out.append(Shape(f"energy/variety/{nm}", h_energy, dict(opts=o, patt=None, n=None), modules=MODS, max_paths=64))
     out.append(Shape("energy/hea/qubitH", h_energy, dict(opts=dict(ansatz=BuiltInAnsatze.HEA, ansatz_options={"n_qubits": 2, "n_layers": 1, "reference_state": "zero"}),
                                                          patt="sss" + "0" * 9, n=2, hkind="hea"), modules=MODS, max_paths=64))
     out.append(Shape("energy/circuit/qubitH", h_energy, dict(opts=dict(), patt="sss", n=2, hkind="circuit"), modules=MODS, max_paths=64))
